@@ -58,7 +58,9 @@ class C08(Prop):
             "life-cycle event happened while >= 1 block was open or across a block boundary; distinct = distinct "
             "(op kind, outcome, expected mode) sequences")
     assumptions = [
-        "single thread and single contextvars.Context (no property quantifies over more)",
+        "single OS thread; a second contextvars.Context (another task) is simulated as a deterministic actor whose block "
+        "ops and in-evaluation toggles are scheduled by the plan; the class-level expression-context stack is not "
+        "judged across contexts",
         "blocks are entered/left by calling __enter__/__exit__ on the real context managers, exactly what `with` does",
         "what ops return or raise is logged, not judged (C09 judges results); only mode and context are judged",
     ]
@@ -68,7 +70,7 @@ class C08(Prop):
     vacuity = {"quick": ["probe:iter_event_inside_block", "probe:iter_finalised_after_block_left",
                          "probe:raise_through_block", "probe:nested_depth_ge_2", "probe:advance_delivered_inside_block",
                          "probe:mode_rule_seen", "probe:mode_query_seen", "probe:with_query_block",
-                         "probe:iterator_over_rule_or_infer_query", "probe:helper_called_inside_block", "probe:rule_branch_block", "probe:raise_kind_KeyboardInterrupt",
+                         "probe:iterator_over_rule_or_infer_query", "probe:helper_called_inside_block", "probe:rule_branch_block", "probe:block_op_in_second_context", "probe:raise_kind_KeyboardInterrupt",
                          "probe:raise_kind_GeneratorExit", "probe:raise_kind_StopIteration", "fault_fired:F3_callback_raise",
                          "fault_fired:F4_intrinsic_abort"]}
 
@@ -78,6 +80,7 @@ class C08(Prop):
         cfg["vocab"] = sorted(set(cfg["vocab"]) | {"fp"} | ({"cp"} if rng.random() < 0.5 else set()))
         cfg["n_obj"] = min(cfg["n_obj"], 5)
         cfg["depth"] = min(cfg["depth"], 2)
+        cfg["inner_eval"] = True        # predicates that evaluate an inner query / act from a second Context
         if rng.random() < 0.3:
             # iterators that build instances (rule heads / Add conclusions) while blocks come and go
             cfg["vocab"] = [v for v in cfg["vocab"] if v not in ("forall", "kw", "nest", "flat")]
@@ -130,6 +133,9 @@ class C08(Prop):
                 ops.append([rng.choice(["close", "drop", "park"]), s])
             elif r < 0.93:
                 ops.append(["collect"])
+            elif r < 0.95:
+                # 'another task': a second contextvars.Context enters / leaves a block of its own
+                ops.append(["other", rng.choice(["enter_sym", "enter_rule", "leave"])])
             elif r < 0.97:
                 # library helpers that open a block internally (let, kwargs-form construction) must restore the
                 # ambient mode of the block they are called in
@@ -293,6 +299,13 @@ class C08(Prop):
                     elif kind == "collect":
                         run.collect()
                         outcome = "collected"
+                    elif kind == "other":
+                        if op[1] == "leave":
+                            run.other.leave()
+                        else:
+                            run.other.enter("sym" if op[1] == "enter_sym" else "rule")
+                        sim.count("probe:block_op_in_second_context")
+                        outcome = op[1]
                     elif kind == "build":
                         sim.count("probe:helper_called_inside_block" if frames else "probe:helper_called_outside_block")
                         try:
@@ -326,7 +339,12 @@ class C08(Prop):
                 elif exp == EQLMode.Query:
                     sim.count("probe:mode_query_seen")
                 got = _symbolic_mode.get()
-                if got != exp:
+                there = run.other.mode_seen_there()
+                exp_there = None if run.other.cm is None else (EQLMode.Query if run.other.kind == "sym" else EQLMode.Rule)
+                if there != exp_there:
+                    sim.violate("mode-in-second-context", {"after": op, "mode_there": repr(there),
+                                                           "expected_there": repr(exp_there), "mode_here": repr(got)})
+                elif got != exp:
                     sim.violate("mode", {"after": op, "op_outcome": repr(outcome), "mode": repr(got),
                                          "expected": repr(exp), "open_blocks": [f[0] for f in frames],
                                          "live_iterators": [n for n, s in run.slots.items()
